@@ -489,14 +489,46 @@ def callers_within(ctx, inst, callee, allowed, what=None, floor=1, site_filter=N
     sites = prog.call_sites(callee)
     if site_filter:
         sites = [(b, n) for (b, n) in sites if site_filter(b, n)]
-    if len(sites) < floor:
-        ctx.anchor_missing(inst, "call sites of %s: expected >= %d, found %d" % (callee, floor, len(sites)))
+    # a floor counts reviewed *uses*: a site inside a private helper of reviewed callers counts once per call of the helper
+    eff = 0
     for b, n in sites:
         o = owner_fn(prog, b)
-        good = any(path_matches(o, a) for a in allowed)
+        if not any(path_matches(o, a) for a in allowed) and _private_helper_of(prog, o, allowed, 0):
+            eff += max(1, sum(1 for cb in prog.product_bodies() for cn in cb.calls() if o in [t for t in prog.targets(cn.ev) if t]))
+        else:
+            eff += 1
+    if eff < floor:
+        ctx.anchor_missing(inst, "call sites of %s: expected >= %d, found %d" % (callee, floor, eff))
+    for b, n in sites:
+        o = owner_fn(prog, b)
+        good = any(path_matches(o, a) for a in allowed) or _private_helper_of(prog, o, allowed, 0)
         ctx.check(good, inst, "CALLERS", o, what or ("only {%s} may call %s" % (", ".join(allowed), callee)),
                   b.where(n.id), None if good else {"rule": "call from a function outside the reviewed set", "callee": callee_name(n.ev)})
     return sites
+
+
+def _private_helper_of(prog, fn_path, allowed, depth):
+    """fn_path is a non-public function all of whose (>= 1) product call sites lie in reviewed functions (or in such helpers):
+    a write+sync pair, a metadata stamp, ... extracted into a private helper stays inside the reviewed entry points, which is what
+    a who-may-call table states. Public functions never qualify: anybody may call them."""
+    b = prog.bodies.get(fn_path)
+    if b is None or depth > 2:
+        return False
+    vis = b.raw.get("vis")
+    if not vis or vis == "Public":
+        return False
+    sites = prog.call_sites_of_path(fn_path) if hasattr(prog, "call_sites_of_path") else None
+    if sites is None:
+        sites = [(cb, cn) for cb in prog.product_bodies() for cn in cb.calls() if fn_path in [t for t in prog.targets(cn.ev) if t]]
+    if not sites:
+        return False
+    for cb, cn in sites:
+        o = owner_fn(prog, cb)
+        if o == fn_path:
+            continue
+        if not (any(path_matches(o, a) for a in allowed) or _private_helper_of(prog, o, allowed, depth + 1)):
+            return False
+    return True
 
 
 def forbid(ctx, inst, scope_pred, callees, what, control=None):
@@ -631,8 +663,18 @@ def nodiscard(ctx, inst, scope_pred, result_ty_re, exceptions, what):
             callee = callee_name(n.ev)
             exc = None
             for (f, c, why) in exceptions:
-                if path_matches(owner, f) and path_matches(callee, c):
+                if not path_matches(owner, f):
+                    continue
+                if path_matches(callee, c):
                     exc = (f, c)
+                else:
+                    # the excepted call extracted into a private helper of the same owner: the helper's only storage-error
+                    # source of that name is still the excepted one, and nobody else calls the helper unreviewed
+                    for t in prog.targets(n.ev):
+                        tb = prog.bodies.get(t) if t else None
+                        if tb is not None and (tb.raw.get("vis") or "Public") != "Public" and prog.reaches_name(t, c) and \
+                                any(call_matches(x.ev, c) for x in tb.calls()):
+                            exc = (f, c)
             if used:
                 ctx.ok(inst, "NODISCARD", owner, "%s: result of %s is consumed" % (what, callee.rsplit("::", 1)[-1]), b.where(n.id), nontrivial=True)
             elif exc:
